@@ -23,7 +23,7 @@ ASSUMPTIONS = ["one statement per source line in printed programs, so the expect
 
 
 def budget(tier):
-    return {"examples": 1600 if tier == "quick" else 20000, "wall_s": 110 if tier == "quick" else 1500}
+    return {"examples": 1600 if tier == "quick" else 20000, "wall_s": 110 if tier == "quick" else 900}
 
 
 @st.composite
